@@ -4,5 +4,8 @@ from . import check
 
 
 def check_thorough(pid, seed=0, jobs=None):
+    import os
+
+    os.environ["UJVC_TIER"] = "thorough"
     rc = check.check_property(pid, tier="thorough", seed=seed, jobs=jobs)
     return rc
